@@ -31,7 +31,16 @@ Projects ==
            inc |-> << D("URL", <<"pz", "pf">>, "", FALSE, "", ""), D("POST", <<>>, "", FALSE, "", "") >>],
    \* JSIGHT written in the included file (refused there by a rule of its own): when JSIGHT is banned, the ban comes first
    p5 |-> [root |-> << IncTok("inc.jst"), D("GET", <<"pa">>, "", FALSE, "", ""), D("RESP", <<"any">>, "", FALSE, "", "200") >>,
-           inc |-> << D("JSIGHT", <<"0.3">>, "", FALSE, "", ""), D("TYPE", <<"@t1", "any">>, "", FALSE, "", "") >>]]
+           inc |-> << D("JSIGHT", <<"0.3">>, "", FALSE, "", ""), D("TYPE", <<"@t1", "any">>, "", FALSE, "", "") >>],
+   \* dangling references: the project is rejected because a declaration is ABSENT; banning the absent kind changes nothing
+   \* (a pass that is skipped when its kind is banned would lose the error)
+   p6 |-> [root |-> DocOf(<<"t1">>) \o << D("GET", <<"pa">>, "", FALSE, "", ""), D("RESP", <<"any">>, "", FALSE, "", "200"), D("PASTE", <<"@nope">>, "", FALSE, "", "") >>, inc |-> <<>>],   \* no MACRO
+   p7 |-> [root |-> DocOf(<<"t1">>) \o << D("GET", <<"pa">>, "", FALSE, "", ""), D("Tags", <<"@g9">>, "", FALSE, "", ""), D("RESP", <<"any">>, "", FALSE, "", "200") >>, inc |-> <<>>],     \* no TAG
+   p8 |-> [root |-> DocOf(<<"srv">>) \o << D("GET", <<"pa">>, "", FALSE, "", ""), D("RESP", <<"@t9">>, "", FALSE, "", "200") >>, inc |-> <<>>],                                         \* no TYPE
+   p9 |-> [root |-> DocOf(<<"t1">>) \o << D("URL", <<"pf">>, "", FALSE, "", ""), D("Method", <<"foo">>, "", FALSE, "", "") >>, inc |-> <<>>],                                            \* no Protocol
+   p10 |-> [root |-> DocOf(<<"srv">>) \o << D("TYPE", <<"@t9">>, "", FALSE, "objen", "") >>, inc |-> <<>>],                                                                            \* no ENUM
+   p11 |-> [root |-> DocOf(<<"t1">>) \o << D("GET", <<"pa">>, "", FALSE, "", ""), D("RESP", <<"any">>, "", FALSE, "", "200"), IncTok("inc.jst") >>,
+            inc |-> << D("PASTE", <<"@nope">>, "", FALSE, "", "") >>]]                                                                                                                 \* no MACRO, the PASTE in an included file
 
 Init == proj \in DOMAIN Projects /\ banned \in ({{k1, k2} : k1, k2 \in Kinds} \cup (IF Deep THEN {{k1, k2, k3} : k1, k2, k3 \in Kinds} ELSE {}))     \* singletons, pairs (and triples)
 Next == UNCHANGED vars
